@@ -3,7 +3,7 @@
 
    Followed code:
      promql/parser.go            parsePromQLQuery, handleAggregateExpr, handleVectorSelector  -> [flags], [query_filters]
-     query/metricsquery.go       ApplyMetricsQuery (star filters for all remaining tag keys)   -> [apply_filters]
+     query/metricsquery.go       ApplyMetricsQuery (star filters for all remaining tag keys)   -> [apply_filters]   (FIXED code)
      structs/metricsstructs.go   ReorderTagFilters (sort by key, value filters before stars)   -> [reorder]
      tagstree/tagstreereader.go  runTSIDSearch, processExactFilter, processWildcardOrRegexFilter -> [step_filter]
      mresults/tsid/tsidtracker.go BulkAdd, BulkAddStar, AddTSID (id STRINGS "name{k:v,k:v,")    -> [bulk_add], [bulk_add_star]
@@ -205,9 +205,19 @@ Fixpoint add_keys (ks : list str) (acc : list str) : list str :=
 Definition all_keys (db : list series) : list str :=
   fold_left (fun acc s => add_keys (map fst (s_labels s)) acc) db [].
 
-(* ApplyMetricsQuery: with SelectAllSeries, ignored (without) filters are dropped and every
-   tag key not mentioned by the query gets a key=* filter *)
+(* ApplyMetricsQuery: with SelectAllSeries every tag key not mentioned by the query gets a key=*
+   filter.  The key=* filters of a without-clause stay in the search (fixes/C09-without-all-labels);
+   the labels are removed from the id by GetSeriesIdWithoutFields at aggregation time. *)
 Definition apply_filters (sel_all : bool) (tfs : list tfilter) (db : list series) : list tfilter :=
+  if sel_all then
+    tfs ++
+    map (fun k => star_filter k false false)
+        (filter (fun k => negb (mem_str k (map f_key tfs))) (all_keys db))
+  else tfs.
+
+(* PRE-FIX (documentation only): ignored (without) filters were dropped before the search, so a
+   series whose labels are all named in the without-clause was never found *)
+Definition apply_filters_prefix (sel_all : bool) (tfs : list tfilter) (db : list series) : list tfilter :=
   if sel_all then
     filter (fun t => negb (f_ignore t)) tfs ++
     map (fun k => star_filter k false false)
@@ -318,6 +328,12 @@ Definition step_filter (sel_all gal nvf : bool) (name : str) (db : list series)
 Definition tracked (q : query) (db : list series) : tracker :=
   let '(sel_all, gal) := flags q in
   let '(others, stars) := reorder (apply_filters sel_all (query_filters q) db) in
+  let nvf := negb (Nat.eqb (length others) 0) in
+  snd (fold_left (step_filter sel_all gal nvf (q_name q) db) (others ++ stars) (true, [])).
+
+Definition tracked_prefix (q : query) (db : list series) : tracker :=
+  let '(sel_all, gal) := flags q in
+  let '(others, stars) := reorder (apply_filters_prefix sel_all (query_filters q) db) in
   let nvf := negb (Nat.eqb (length others) 0) in
   snd (fold_left (step_filter sel_all gal nvf (q_name q) db) (others ++ stars) (true, [])).
 
@@ -487,13 +503,32 @@ Definition spec_agg (fn : aggfn) (vals : list Z) : Q :=
 
 (* ---------- arithmetic between two instant vectors (segexecution.go, HelperQueryArithmeticAndLogical) ----------
    Both operands are plain selectors (GetAllLabels is already set for them).  A left series is
-   paired with the right series whose id STRING equals rightName ++ (leftId minus leftName);
-   a right-hand sample missing at a timestamp is read from a Go map and is therefore 0. *)
+   paired with the right series whose id STRING equals rightName ++ (leftId minus leftName); an output
+   sample exists where BOTH series have a sample (fixes/C09-arith-missing-sample); a pair without
+   any common timestamp yields no series. *)
 Inductive binop := BAdd | BSub | BMul.
 Definition bin_apply (op : binop) (x y : Q) : Q :=
   match op with BAdd => Qred (x + y) | BSub => Qred (x - y) | BMul => Qred (x * y) end.
 
 Definition run_arith (op : binop) (q1 q2 : query) (db : list series) : list (str * list (Z * Q)) :=
+  let r2 := run_query q2 db in
+  flat_map (fun e =>
+    let rid := q_name q2 ++ skipn (length (q_name q1)) (fst e) in
+    match find (fun e2 => str_eqb (fst e2) rid) r2 with
+    | None => []
+    | Some e2 =>
+      match flat_map (fun tv =>
+              match find (fun tv2 => Z.eqb (fst tv2) (fst tv)) (snd e2) with
+              | Some tv2 => [(fst tv, bin_apply op (snd tv) (snd tv2))]
+              | None => []
+              end) (snd e) with
+      | [] => []
+      | l => [(fst e, l)]
+      end
+    end) (run_query q1 db).
+
+(* PRE-FIX (documentation only): a right-hand sample missing at a timestamp was read from a Go map as 0 *)
+Definition run_arith_prefix (op : binop) (q1 q2 : query) (db : list series) : list (str * list (Z * Q)) :=
   let r2 := run_query q2 db in
   flat_map (fun e =>
     let rid := q_name q2 ++ skipn (length (q_name q1)) (fst e) in
@@ -544,3 +579,8 @@ Definition labels_clean (ls : labels) : bool := forallb (fun p => clean (fst p) 
 Definition extract_guard (name : str) (ls : labels) (f : str) : bool :=
   clean name && labels_clean ls && clean f && negb (Nat.eqb (length f) 0) &&
   forallb (fun p => str_eqb (fst p) f || negb (is_suffix f (fst p))) ls.
+
+(* guard of the selection theorem for  fn without (l) (name{ms}) : distinct labels in l, none of them matched *)
+Definition without_guard (l : list str) (ms : list matcher) : bool :=
+  nodup_strb l && negb (mem_str name_label l) &&
+  forallb (fun k => negb (mem_str k (map m_key ms))) l.
